@@ -108,6 +108,22 @@ def documents(ctx):
             yield f"{base_name}:prefix{cut}", text[:cut]
     for i, raw in enumerate(RAW):
         yield f"raw{i}", raw
+    # nesting-depth ladder at every position a value can take (json.loads, schema hooks, copies may each have
+    # their own recursion limit)
+    for depth in (10, 50, 100, 200, 300, 400, 500, 600, 700, 800, 900, 1000, 1200, 1500, 2000, 3000, 5000, 20000):
+        for opener, closer in (("[", "]"), ('{"a":', "}")):
+            nested = opener * depth + "1" + closer * depth
+            yield f"deep-top-{depth}{opener[0]}", nested.encode()
+            yield f"deep-node-{depth}{opener[0]}", ('{"1":' + nested + "}").encode()
+            yield f"deep-field-{depth}{opener[0]}", (
+                '{"1":{"node_id":1,"node_type":1,"protocol_version":"1","sketch_name":' + nested + "}}").encode()
+            yield f"deep-unknown-field-{depth}{opener[0]}", (
+                '{"1":{"node_id":1,"node_type":1,"protocol_version":"1","extra":' + nested + "}}").encode()
+            yield f"deep-child-{depth}{opener[0]}", (
+                '{"1":{"node_id":1,"node_type":1,"protocol_version":"1","children":{"0":{"child_id":0,"child_type":1,'
+                '"values":{"0":' + nested + "}}}}}").encode()
+            yield f"deep-legacy-{depth}{opener[0]}", ('{"1":{"sensor_id":1,"type":null,"protocol_version":"1","children":'
+                                                      + nested + "}}").encode()
     # random structural garbage
     def rand_json(depth):
         roll = rng.random()
